@@ -208,15 +208,14 @@ def main(argv):
             known_hits[k] = known_hits.get(k, 0) + 1
             continue
         nviol += 1
-        dk = (v.get("kind"), v.get("detail", "")[:120])
-        if dk in seen_v and nviol > 5:
+        dk = (v.get("kind"), v.get("finding_key"))
+        exit_code = 1
+        if dk in seen_v or len(seen_v) >= 5:
             continue
         seen_v.add(dk)
-        if len(seen_v) <= 12:
-            path = write_replay(pid, v)
-            lines.append(f"VIOLATION property={pid} replay={path}")
-            lines.append(("  %s: %s" % (v.get("kind"), v.get("detail", "")))[:1500])
-        exit_code = 1
+        path = write_replay(pid, v)
+        lines.append(f"VIOLATION property={pid} replay={path}")
+        lines.append(("  %s: %s" % (v.get("kind"), v.get("detail", "")))[:1200])
     for k, n in sorted(known_hits.items()):
         if k not in witness_fail:
             lines.append(f"KNOWN-FINDING: property={pid} {k}: {okeys[k].get('what','')} ({n} generated cases)")
